@@ -436,10 +436,28 @@ func (w *World) newToNeighbourhood(verifDir string, fi *FuncInfo, unknown []stri
 	w.loadCondAtoms(verifDir)
 	w.buildNeighbours()
 	hood := append([]string{fi.Key}, w.neighbours[fi.Key]...)
+	// reviewed helpers that no longer exist and whose body now lives in fi (inlined, or turned from
+	// a method into a plain function): what they mentioned, fi had in hand
+	for _, g := range w.vanishedFns() {
+		if w.absorbedInto(g, fi) {
+			hood = append(hood, g)
+		}
+	}
 	var out []string
 	for _, u := range unknown {
 		known := false
 		for _, h := range hood {
+			if strings.HasPrefix(u, "call:") {
+				callee := strings.TrimLeft(strings.TrimPrefix(strings.TrimPrefix(u, "call:"), "func:"), "")
+				for _, p := range w.base.prints[h] {
+					if p == "gcall:"+callee || p == "call:"+callee {
+						known = true
+					}
+				}
+				if known {
+					break
+				}
+			}
 			if w.condAtoms[h][u] {
 				known = true
 				break
@@ -448,7 +466,7 @@ func (w *World) newToNeighbourhood(verifDir string, fi *FuncInfo, unknown []stri
 				// a field, qualified: pkg.Type.Field
 				name := u[strings.LastIndex(u, ".")+1:]
 				fp := w.base.prints[h]
-				if len(fp) >= 80 {
+				if len(fp) >= 300 {
 					known = true // fingerprint truncated: cannot tell
 					break
 				}
